@@ -75,7 +75,7 @@ class DataCatalog:
         if not isinstance(value, str):
             msg = "The name of a data catalog must be a string."
             raise TypeError(msg)
-        if not re.match(r"[a-zA-Z0-9-_]+", value):
+        if not re.fullmatch(r"[a-zA-Z0-9-_]+", value):
             msg = (
                 "The name of a data catalog must be a string containing only letters, "
                 "numbers, hyphens, and underscores."
